@@ -15,9 +15,13 @@ type Step struct {
 	Block  *types.Block                 `json:"block,omitempty"`
 	Supp   *consensus.V1BlockSupplement `json:"supp,omitempty"`
 	Expect *Expect                      `json:"expect,omitempty"`
-	Label  string                       `json:"label,omitempty"`
-	Want   string                       `json:"want,omitempty"` // probe verdict the property demands: reject | accept | sound
-	Info   map[string]string            `json:"info,omitempty"`
+	// Control (probes only): the same tampered content, honestly re-signed by all parties. If the
+	// control is rejected the tamper did not isolate the mechanism under test and nothing is asserted.
+	Control     *types.Block                 `json:"control,omitempty"`
+	ControlSupp *consensus.V1BlockSupplement `json:"controlSupp,omitempty"`
+	Label       string                       `json:"label,omitempty"`
+	Want        string                       `json:"want,omitempty"` // probe verdict the property demands: reject | accept | sound
+	Info        map[string]string            `json:"info,omitempty"`
 }
 
 // ChainCase is a complete, replayable history: network, genesis and steps.
@@ -203,6 +207,11 @@ func (g *Gen) Revert() bool {
 		return false
 	}
 	return true
+}
+
+// ProbeWithControl records a probe together with its honestly re-signed control block.
+func (g *Gen) ProbeWithControl(blk types.Block, bs consensus.V1BlockSupplement, ctl types.Block, cbs consensus.V1BlockSupplement, label, want string, info map[string]string) {
+	g.Case.Steps = append(g.Case.Steps, Step{Op: "probe", Block: &blk, Supp: &bs, Control: &ctl, ControlSupp: &cbs, Label: label, Want: want, Info: info})
 }
 
 // Probe records an adversarial (or boundary) block to be judged against the current tip.
